@@ -402,7 +402,9 @@ func (r *Round) addProposedBlock(b *block.Block) {
 func (r *Round) GetProposedBlocks() []*block.Block {
 	r.mutex.RLock()
 	defer r.mutex.RUnlock()
-	return r.proposedBlocks
+	pbs := make([]*block.Block, len(r.proposedBlocks))
+	copy(pbs, r.proposedBlocks)
+	return pbs
 }
 
 func (r *Round) GetBestRankedProposedBlock() *block.Block {
